@@ -318,8 +318,18 @@ def run(chk: Check, eng: Engine) -> None:
         if f.module != "fandango.cli.utils":
             continue
         # names that range over a literal collection containing "random_seed" (`for name in ("population_size", ..., "random_seed"): copy(args, settings, name)`)
+        def literal_collection(e: ast.AST) -> Optional[ast.AST]:
+            """the collection itself, or the module-level constant a name stands for (`_COPIED_SETTINGS = ("population_size", ..., "random_seed")`)"""
+            if isinstance(e, (ast.Tuple, ast.List, ast.Set)):
+                return e
+            if isinstance(e, ast.Name):
+                vals = [getattr(v, "value", v) for v in cli_mod.globals_assigned.get(e.id, [])]
+                if len(vals) == 1 and isinstance(vals[0], (ast.Tuple, ast.List, ast.Set)):
+                    return vals[0]
+            return None
+
         seed_names = {lp.target.id for lp in walk_local(f.node) if isinstance(lp, (ast.For, ast.comprehension)) and isinstance(lp.target, ast.Name)
-                      and isinstance(lp.iter, (ast.Tuple, ast.List, ast.Set)) and any(isinstance(e_, ast.Constant) and e_.value == "random_seed" for e_ in lp.iter.elts)}
+                      and literal_collection(lp.iter) is not None and any(isinstance(e_, ast.Constant) and e_.value == "random_seed" for e_ in literal_collection(lp.iter).elts)}  # type: ignore[union-attr]
         for c in walk_local(f.node):
             if isinstance(c, ast.Call) and isinstance(c.func, ast.Name) and any((isinstance(a, ast.Constant) and a.value == "random_seed") or (isinstance(a, ast.Name) and a.id in seed_names)
                                                                               for a in c.args):
